@@ -62,6 +62,7 @@ var c07Letters = func() []c07Letter {
 			d.SetCReg(0, true, rgba(uint8(i), 0, 0, 0xff))
 		}
 	})
+	plain("Reset", func(d ivg.Destination, set int) { d.Reset(ivg.DefaultViewBox, ivg.DefaultPalette) })
 	plain("CSel()", func(d ivg.Destination, set int) { d.CSel() })
 	plain("NSel()", func(d ivg.Destination, set int) { d.NSel() })
 	ls = append(ls,
@@ -237,6 +238,13 @@ func (st *c07State) check(cs *c07Case) {
 		if err1 != err2 {
 			fail("helper-result:"+L.name, fmt.Sprintf("letter %d %s returns %v on the Renderer pipeline but %v on the Encoder pipeline", i, L.name, err1, err2))
 			return
+		}
+		if L.name == "Reset" {
+			// a new graphic on the same objects: the Encoder forgets the earlier stream, so does the comparison
+			vm.Reset(ivg.DefaultPalette)
+			ras1.ResetLog()
+			ras3.ResetLog()
+			e.HighResolutionCoordinates = cs.Set == 1
 		}
 		for ; seen < len(rd1.Calls); seen++ {
 			c := &rd1.Calls[seen]
